@@ -95,9 +95,21 @@ def check(case, stats):
     if vals and np.dtype(case["dtype2"]).kind == "u" and mx + len(pm) > np.iinfo(case["dtype2"]).max:
         classes.append("fresh_labels_past_dtype_max")
     stats.record(case, base["dict"].get("tp", 0) > 0 and leaves_small, classes)
-    ev2 = lib.evaluator(cfg)
-    tr = meta.observe(H.lib_call(ev2.evaluate, pred2, ref2)["ungrouped"][0])
     only = None if unique else ("num_ref_instances", "global_bin_dsc", "global_bin_iou")
-    msg = meta.diff(base, tr, only=only)
-    if msg:
-        raise Violation(f"result changes under label renaming / dtype {case['dtype2']} (labels {sorted(set(vals))[:8]}): {msg}")
+    # a sibling renaming first (same label values, assigned to other instances): two evaluations with large
+    # labels in a row, so that anything remembered from the first one (lookup tables, caches) meets the second
+    def rotate(mp):
+        ks, vs = list(mp), list(mp.values())
+        return dict(zip(ks, vs[1:] + vs[:1]))
+    if case["input"] == "MATCHED_INSTANCE":
+        allm = rotate({**pm, **rm})
+        pm3, rm3 = {k: allm[k] for k in pm}, {k: allm[k] for k in rm}
+    else:
+        pm3, rm3 = rotate(pm), rotate(rm)
+    pred3 = gen.apply_relabel(pred, pm3, case["dtype2"])
+    ref3 = gen.apply_relabel(ref, rm3, case["dtype2"])
+    for tag, p_, r_ in (("sibling renaming", pred3, ref3), ("renaming", pred2, ref2)):
+        tr = meta.observe(H.lib_call(lib.evaluator(cfg).evaluate, p_, r_)["ungrouped"][0])
+        msg = meta.diff(base, tr, only=only)
+        if msg:
+            raise Violation(f"result changes under label {tag} / dtype {case['dtype2']} (labels {sorted(set(vals))[:8]}): {msg}")
